@@ -1178,3 +1178,84 @@ def r08_11_calendar_queries(ctx: Ctx) -> RuleResult:
         if ok:
             rr.ok({"call": f"{key[0]}:{key[1]}", "argument": key[2]})
     return rr
+
+
+# ------------------------------------------------------------------------------------------- R08.12 standard patterns are unwrapped
+
+
+@rule("C08")
+def r08_12_standard_instances_are_unwrapped(ctx: Ctx) -> RuleResult:
+    """For the one-letter standard patterns a parser returns a cached *public* pattern object (X._Patterns._..._impl), which does
+    not implement the partial-pattern interface (parse_partial / append_format on a cursor).  X._create stores what the parser
+    returns as its underlying partial pattern; it must first replace a public instance by that instance's own underlying pattern,
+    or embedding the pattern (`ld<R>`) calls parse_partial on an object that has none: AttributeError out of parse."""
+    rr = RuleResult("R08.12", "pattern factories unwrap a public standard-pattern instance returned by their parser before storing it as the underlying partial pattern", min_instances=3)
+    M = ctx.M
+    for lst in M.classes.values():
+        for c in lst:
+            if not c.mod.rel.startswith(TEXT) or c.name.startswith("_") or "_create" not in c.methods:
+                continue
+            f = c.methods["_create"]
+            # does some parser return a public instance of this class?
+            returns_public = False
+            for g in M.funcs.values():
+                if g.name == "parse_pattern" and g.mod.rel.startswith(TEXT) and not isinstance(g.node, ast.Lambda):
+                    for n in own_nodes(g.node):
+                        if isinstance(n, ast.Return) and isinstance(n.value, ast.Attribute):
+                            root = n.value
+                            while isinstance(root, ast.Attribute):
+                                root = root.value
+                            if isinstance(root, ast.Name) and root.id == c.name:
+                                returns_public = True
+            if not returns_public:
+                continue
+            rr.inst()
+            unwrap = None
+            for n in own_nodes(f.node):
+                if isinstance(n, ast.Assign) and len(n.targets) == 1 and isinstance(n.targets[0], ast.Name):
+                    v = n.targets[0].id
+                    if any(isinstance(x, ast.Attribute) and x.attr == "_underlying_pattern" and isinstance(x.value, ast.Name) and x.value.id == v for x in ast.walk(n.value)):
+                        facts = facts_at(n)
+                        if any(op == "truthy" and a.replace(" ", "") == f"isinstance({v},{c.name})" for a, op, b in facts):
+                            unwrap = (n, v)
+                elif isinstance(n, ast.IfExp) and "_underlying_pattern" in unparse(n.body) and unparse(n.test).replace(" ", "").startswith("isinstance(") and c.name in unparse(n.test):
+                    unwrap = (n, "")
+            ctor_calls = [n for n in own_nodes(f.node) if isinstance(n, ast.Call) and unparse(n.func).endswith("__ctor")]
+            if not ctor_calls:
+                rr.fail(f.qual, "no constructor call found in the factory (not decided)", ctx.loc(f))
+                continue
+            if unwrap is not None and all(unwrap[0].lineno < k.lineno for k in ctor_calls):
+                rr.ok({"factory": f.qual, "unwraps": unparse(unwrap[0])[:70]})
+            else:
+                rr.fail(f.qual, f"the parser can return a public {c.name} (standard pattern letters) but the factory stores it as the underlying partial pattern without taking its `_underlying_pattern`: the stored object has no parse_partial", ctx.loc(f, ctor_calls[0]))
+    return rr
+
+
+@rule("C08")
+def r08_13_last_character_needs_a_character(ctx: Ctx) -> RuleResult:
+    """`buffer[buffer.length - 1]` (peeking at the last character written, e.g. to take back a decimal separator) is index -1 on an
+    empty buffer: IndexError.  Format actions also run while a pattern is *created* (the builder formats a sample value to size
+    its buffer), so an unguarded peek in a fraction formatter makes `create("FFF")` raise IndexError instead of building the
+    pattern.  Every such subscript in the text layer must be dominated by a non-emptiness test of the same buffer."""
+    import re
+
+    rr = RuleResult("R08.13", "every `buf[buf.length - 1]` / `s[len(s) - 1]` in the text layer is dominated by a non-emptiness test of the same buffer", min_instances=1)
+    for f in sorted(set(ctx.M.func_of_node.values()), key=lambda x: x.qual):
+        if not f.mod.rel.startswith(TEXT):
+            continue
+        nodes = ast.walk(f.node) if isinstance(f.node, ast.Lambda) else own_nodes(f.node)
+        for n in nodes:
+            if not (isinstance(n, ast.Subscript) and isinstance(n.ctx, ast.Load)):
+                continue
+            base, idx = unparse(n.value), unparse(n.slice).replace(" ", "")
+            if idx not in (f"{base}.length-1", f"len({base})-1", "-1"):
+                continue
+            rr.inst()
+            facts = facts_at(n)
+            lens = (f"{base}.length", f"len({base})")
+            ok = any((l in lens and ((op == ">" and r == "0") or (op == ">=" and r == "1") or (op == "!=" and r == "0"))) or (l == base and op == "truthy") for (l, op, r) in facts)
+            if ok:
+                rr.ok({"peek": f"{f.qual}: {unparse(n)[:50]}"})
+            else:
+                rr.fail(f.qual, f"`{unparse(n)[:60]}` is not dominated by a test that `{base}` is non-empty: IndexError when nothing has been written yet (pattern creation formats a sample value)", ctx.loc(f, n))
+    return rr
